@@ -3,6 +3,7 @@
   reader's loop against the specification's scan, and the per-goal simulation step.
 -/
 import PrologVerif.Proofs.StreamSim
+import PrologVerif.Proofs.StreamOrder
 namespace PrologVerif.Stream
 open Spec
 
@@ -713,10 +714,8 @@ theorem peekByte_eos {c : Cfg} (hv : c.Valid) {s : Stream} {cu : Cursor} (h : Si
 
 /-! ### small facts about the specification used by the property theorems -/
 
-theorem pastAction_idx (a : EofAction) (cu : Cursor) : (pastAction a cu).2.idx = cu.idx := by
-  unfold pastAction; split
-  · cases a <;> rfl
-  · rfl
+theorem pastAction_idx (a : EofAction) (cu : Cursor) : (pastAction a cu).2.idx = cu.idx :=
+  pastAction_idx' a cu
 
 theorem cursorReadRune_peek_idx (c : Cfg) (cu : Cursor) : (cursorReadRune c cu).2.2.idx = cu.idx := by
   unfold cursorReadRune
@@ -770,27 +769,5 @@ theorem spec_readTerm_eof (c : SCfg) (sc : Scanner σ) (cu cu' : Cursor) (h : Sp
     · simp at h
     · split at h <;> simp at h
       rw [← h]
-
-/-- the result a passing `check` accepted, for the operations whose result the specification fixes -/
-theorem check_exact_getChar (c : SCfg) (sc : Scanner σ) (cu cu' : Cursor) (r : Result)
-    (h : Spec.check c sc .getChar cu r = some cu') : Spec.readChar c true cu = (r, cu') := by
-  simp only [Spec.check] at h
-  split at h
-  · rename_i heq; simp at h; rw [heq, ← h]
-  · simp at h
-
-theorem check_exact_getByte (c : SCfg) (sc : Scanner σ) (cu cu' : Cursor) (r : Result)
-    (h : Spec.check c sc .getByte cu r = some cu') : Spec.readByte c true cu = (r, cu') := by
-  simp only [Spec.check] at h
-  split at h
-  · rename_i heq; simp at h; rw [heq, ← h]
-  · simp at h
-
-theorem check_exact_readTerm (c : SCfg) (sc : Scanner σ) (cu cu' : Cursor) (r : Result)
-    (h : Spec.check c sc .readTerm cu r = some cu') : Spec.readTerm c sc cu = (r, cu') := by
-  simp only [Spec.check] at h
-  split at h
-  · rename_i heq; simp at h; rw [heq, ← h]
-  · simp at h
 
 end PrologVerif.Stream
